@@ -75,7 +75,7 @@ theorem opAdd_obs_eq (hro : ReadOnly run S rec) (p : Path) (e : Ent) (ids : List
     rw [fireAddIfHas_readOnly hro x (by rw [hx]; exact hs1) (by rw [hx]; exact hok1) _ (by decide),
       hx, hobs]
   cases p <;>
-  simp [opAdd, preCheck, preCheckMap, preCheckTyped, M.forM', bind, M.bind, M.get, M.assert, ha,
+  simp [opAdd, preCheck_nil, bind, M.bind, M.get, M.assert, ha,
     hcore, writeVals_eq, hfire w1 rfl, hfire (writeValsW w1 e vals) rfl, seenAfter,
     writeValsW_addLog, pure, M.pure]
 
